@@ -20,3 +20,9 @@ Definition sub_case := (Z * bool * nat * positive * positive * list nat * list n
 Definition check_sub (c : sub_case) : bool :=
   let '(minf, is_int, m, p, q, cs, subset, picks, inner, rows) := c in
   sub_ok minf (mc_of is_int m p q) cs subset picks inner rows.
+
+(* SingleAnnotatorWrapper._get_order_preserving_s_query on one row: (key below every value = -inf, row of utility keys (None = NaN),
+   forced position, ranks returned (None = NaN)) *)
+Definition rt_case := (Z * list val * nat * list (option nat))%type.
+Definition check_rank_transform (c : rt_case) : bool :=
+  let '(low, row, forced, ranks) := c in list_eqb onat_eqb (rank_transform low row forced) ranks.
